@@ -21,19 +21,23 @@ use crate::streams::c23::{spec_owned, Own};
 use crate::streams::c24::*;
 use fuel_vm::{
     consts::VM_MAX_RAM,
-    fuel_asm::{op, GTFArgs, Instruction, RegId},
+    fuel_asm::{op, wideint::{MathArgs, MathOp, MulArgs}, GMArgs, GTFArgs, Instruction, RegId},
 };
 
 #[derive(Clone, Copy, PartialEq, Debug)]
 enum Fault { None, BeyondSp, BelowSsp, CallFrame, Code, TxBytes, Gap, CallerHeap, Span, Huge, EmptyAtSp }
 
-struct Body { code: Vec<Instruction>, frame: u64, heap: u64, allocs: u64 }
+struct Body { code: Vec<Instruction>, frame: u64, heap: u64, allocs: u64, external: bool, tro_done: bool, moved_ssp: bool }
 
 const R_AMT: u8 = 0x14;
 const R_PTR: u8 = 0x15;
 const R_VAL: u8 = 0x16;
 const R_LEN: u8 = 0x17;
 const R_SRC: u8 = 0x18;
+const R_SD: u8 = 0x19;   // script data: [id_A ‖ 16 zero ‖ id_B ‖ 16 zero ‖ 32 zero bytes]
+const R_COIN: u8 = 0x1a;
+const R_AST: u8 = 0x1b;  // 32 zero bytes = the base asset id
+const N_CONTRACTS: usize = 2;
 
 fn ptr_stack(b: &mut Body, ctx: &mut Ctx, len: u64) -> bool {
     // pointer to `len` owned stack bytes: $sp - off, off in [len, frame]
@@ -56,7 +60,7 @@ fn ptr_owned(b: &mut Body, ctx: &mut Ctx, len: u64) -> bool {
 
 /// one valid block
 fn block(b: &mut Body, ctx: &mut Ctx, callee: Option<(usize, usize, u64)>) {
-    match ctx.rng.below(20) {
+    match ctx.rng.below(34) {
         0 | 1 => { let k = *ctx.rng.pick(&[8u64, 16, 24, 64, 200, 256]); if b.frame + k < 3000 { b.code.push(op::cfei(k as u32)); b.frame += k; } }
         2 => { if b.frame >= 8 { let k = 8 * (1 + ctx.rng.below(b.frame / 8)); b.code.push(op::cfsi(k as u32)); b.frame -= k; } }
         3 => {
@@ -69,7 +73,13 @@ fn block(b: &mut Body, ctx: &mut Ctx, callee: Option<(usize, usize, u64)>) {
             if b.frame + 8 * c < 3000 {
                 if ctx.rng.chance(1, 2) { b.code.push(op::pshl(mask)); } else { b.code.push(op::pshh(mask)); }
                 b.frame += 8 * c;
-                if ctx.rng.chance(1, 2) { b.code.push(op::popl(mask & 0xffff00)); b.frame -= 8 * (mask & 0xffff00).count_ones() as u64; }
+                if ctx.rng.chance(1, 2) {
+                    b.code.push(op::popl(mask & 0xffff00));
+                    b.frame -= 8 * (mask & 0xffff00).count_ones() as u64;
+                    // the pop scrambles the program registers: re-derive the long-lived pointers
+                    b.code.push(op::gtf_args(R_SD, 0x00, GTFArgs::ScriptData));
+                    b.code.push(op::addi(R_AST, R_SD, (48 * N_CONTRACTS) as u16));
+                }
             }
         }
         5 | 6 => { let n = *ctx.rng.pick(&[0u64, 1, 8, 24, 32, 100, 256]); if b.heap + n < 3000 { b.code.push(op::movi(R_AMT, n as u32)); b.code.push(op::aloc(R_AMT)); b.heap += n; b.allocs += n; } }
@@ -109,11 +119,103 @@ fn block(b: &mut Body, ctx: &mut Ctx, callee: Option<(usize, usize, u64)>) {
         16 => { if ptr_owned(b, ctx, 32) { b.code.push(op::bhsh(R_PTR, RegId::ZERO)); } }
         17 | 18 | 19 => {
             if let Some((k, n, allocs)) = callee {
-                b.code.extend(call_seq(k, n));
+                let mut seq = call_seq(k, n);
+                if b.external && ctx.rng.chance(1, 2) {
+                    // forward coins from the script's free balance: the VM updates the balance entry in memory
+                    let call = seq.pop().unwrap();
+                    let _ = call;
+                    seq.push(op::movi(R_COIN, 1 + ctx.rng.below(9) as u32));
+                    seq.push(op::call(0x11, R_COIN, 0x12, 0x13));
+                }
+                b.code.extend(seq);
                 b.heap += allocs;
                 b.allocs += allocs;
             }
         }
+        20 => { if ptr_owned(b, ctx, 32) { b.code.push(op::cb(R_PTR)); } }
+        21 => { if ptr_owned(b, ctx, 32) { b.code.push(op::addi(R_SRC, R_SD, 48 * ctx.rng.below(2) as u16)); b.code.push(op::croo(R_PTR, R_SRC)); } }
+        22 => {
+            let l = *ctx.rng.pick(&[0u64, 4, 8, 40]);
+            if ptr_owned(b, ctx, l) {
+                b.code.push(op::addi(R_SRC, R_SD, 48 * ctx.rng.below(2) as u16));
+                b.code.push(op::movi(R_LEN, l as u32));
+                b.code.push(op::ccp(R_PTR, R_SRC, RegId::ZERO, R_LEN));
+            }
+        }
+        23 => {
+            b.code.push(op::addi(R_SRC, R_SD, 48 * ctx.rng.below(2) as u16));
+            b.code.push(op::csiz(R_VAL, R_SRC));
+            b.code.push(op::bal(R_VAL, R_AST, R_SRC));
+            b.code.push(op::bhei(R_VAL));
+            b.code.push(op::time(R_VAL, RegId::ZERO));
+            b.code.push(op::gm_args(R_VAL, GMArgs::GetChainId));
+            b.code.push(op::gtf_args(R_VAL, 0x00, GTFArgs::ScriptLength));
+        }
+        24 => {
+            // wide integers on zero operands (no overflow, no division): destination must be owned
+            let quad = ctx.rng.chance(1, 2);
+            if ptr_owned(b, ctx, if quad { 32 } else { 16 }) {
+                let ma = MathArgs { op: *ctx.rng.pick(&[MathOp::ADD, MathOp::SUB, MathOp::XOR, MathOp::OR, MathOp::AND]), indirect_rhs: true };
+                let mu = MulArgs { indirect_lhs: true, indirect_rhs: true };
+                match (quad, ctx.rng.chance(1, 2)) {
+                    (true, true) => b.code.push(op::wqop_args(R_PTR, R_AST, R_AST, ma)),
+                    (true, false) => b.code.push(op::wqml_args(R_PTR, R_AST, R_AST, mu)),
+                    (false, true) => b.code.push(op::wdop_args(R_PTR, R_AST, R_AST, ma)),
+                    (false, false) => b.code.push(op::wdml_args(R_PTR, R_AST, R_AST, mu)),
+                }
+            }
+        }
+        25 => {
+            // signature recovery on garbage: fails, sets $err and clears the (owned) destination
+            if ptr_owned(b, ctx, 64) { if ctx.rng.chance(1, 2) { b.code.push(op::eck1(R_PTR, R_SD, R_AST)); } else { b.code.push(op::ecr1(R_PTR, R_SD, R_AST)); } }
+            b.code.push(op::movi(R_LEN, 8));
+            b.code.push(op::ed19(R_AST, R_SD, R_AST, R_LEN));
+        }
+        26 => {
+            // contract storage (internal context only): read a slot into owned memory, write slots, clear
+            if !b.external && ptr_owned(b, ctx, 32) {
+                b.code.push(op::srwq(R_PTR, R_VAL, R_SD, RegId::ONE));
+                b.code.push(op::swwq(R_SD, R_VAL, R_AST, RegId::ONE));
+                b.code.push(op::srw(R_VAL, R_LEN, R_SD, 0));
+                b.code.push(op::sww(R_SD, R_VAL, RegId::ONE));
+                b.code.push(op::srwq(R_PTR, R_VAL, R_SD, RegId::ONE));
+                b.code.push(op::scwq(R_SD, R_VAL, RegId::ONE));
+                b.code.push(op::mint(RegId::ONE, R_AST));
+                b.code.push(op::burn(RegId::ONE, R_AST));
+            }
+        }
+        27 => {
+            // LDC: only with an unallocated stack frame ($ssp == $sp)
+            if b.frame == 0 && !b.moved_ssp {
+                b.code.push(op::addi(R_SRC, R_SD, 48 * ctx.rng.below(2) as u16));
+                b.code.push(op::movi(R_LEN, *ctx.rng.pick(&[4u32, 8, 12, 24])));
+                b.code.push(op::ldc(R_SRC, RegId::ZERO, R_LEN, 0));
+                b.moved_ssp = true;
+            }
+        }
+        28 | 29 => {
+            if b.external {
+                b.code.push(op::movi(R_COIN, 1 + ctx.rng.below(5) as u32));
+                b.code.push(op::addi(R_SRC, R_SD, 48 * ctx.rng.below(2) as u16));
+                b.code.push(op::tr(R_SRC, R_COIN, R_AST));
+            }
+        }
+        30 => {
+            if b.external && !b.tro_done {
+                b.code.push(op::movi(R_COIN, 2));
+                b.code.push(op::movi(R_VAL, N_CONTRACTS as u32));
+                b.code.push(op::tro(R_SD, R_VAL, R_COIN, R_AST));
+                b.tro_done = true;
+            }
+        }
+        31 => {
+            if b.external {
+                b.code.push(op::movi(R_COIN, ctx.rng.below(3) as u32));
+                b.code.push(op::movi(R_LEN, *ctx.rng.pick(&[0u32, 8, 32])));
+                b.code.push(op::smo(R_SD, R_SD, R_LEN, R_COIN));
+            }
+        }
+        32 => { b.code.push(op::movi(R_LEN, 16)); b.code.push(op::logd(RegId::ZERO, RegId::ONE, R_SD, R_LEN)); }
         _ => {}
     }
 }
@@ -151,7 +253,9 @@ fn fault(b: &mut Body, ctx: &mut Ctx, f: Fault, in_call: bool) {
 }
 
 fn body(ctx: &mut Ctx, nblocks: u64, callee: Option<(usize, usize, u64)>, f: Fault, in_call: bool, fault_pos: u64) -> Body {
-    let mut b = Body { code: vec![], frame: 0, heap: 0, allocs: 0 };
+    let mut b = Body { code: vec![], frame: 0, heap: 0, allocs: 0, external: !in_call, tro_done: false, moved_ssp: false };
+    b.code.push(op::gtf_args(R_SD, 0x00, GTFArgs::ScriptData));
+    b.code.push(op::addi(R_AST, R_SD, (48 * N_CONTRACTS) as u16));
     for i in 0..nblocks {
         if i == fault_pos { fault(&mut b, ctx, f, in_call); }
         block(&mut b, ctx, callee);
